@@ -72,7 +72,7 @@ func nearMissKeys(g *Gen, tb *Table) []*Val {
 
 func init() {
 	suites["C12"] = func(o *Out, g *Gen, thorough bool) map[string]any {
-		reps := 1
+		reps := 2
 		if thorough {
 			reps = 6
 		}
@@ -237,9 +237,9 @@ func refTrim(b []byte, pad byte, left bool) []byte {
 
 func init() {
 	suites["C13"] = func(o *Out, g *Gen, thorough bool) map[string]any {
-		rounds := 6
+		rounds := 20
 		if thorough {
-			rounds = 60
+			rounds = 300
 		}
 		pads := []int{' ', '0', 0, 0xE9, 0x80, 0xFF, 'A', 0xC3, 0xA9}
 		check := func(n int, pad int, left bool, s []byte) {
